@@ -44,8 +44,9 @@ Section C08.
 
   Theorem C08_str_text_roundtrip : forall s hive,
     parse_with_meta KStr (show hive (VStr s)) = Ok (VStr s) /\
-    parse_with_meta KCat (show hive (VCat (VStr s))) = Ok (VStr s).
-  Proof. intros s hive. split; reflexivity. Qed.
+    parse_with_meta (KCat None) (show hive (VCat (VStr s))) = Ok (VStr s) /\
+    parse_with_meta (KCat (Some KStr)) (show hive (VCat (VStr s))) = Ok (VStr s).
+  Proof. intros s hive. repeat split; reflexivity. Qed.
 
   (* floats / timestamps: reduced to the external conversions (trusted base) *)
   Theorem C08_float_time_roundtrip_conditional : forall hive f t ns single,
@@ -63,10 +64,24 @@ Section C08.
   Theorem C08_guess_int : forall z, parse_guess (show_Z z) = VInt z.
   Proof. exact (guess_int F T D parse_float parse_time_pd parse_delta). Qed.
 
-  (* known defect (finding C08-categorical-numeric-labels): the label dtype is not recorded, so the
-     labels of a numeric categorical come back as text *)
-  Theorem C08_categorical_numeric_refuted : exists v hive,
-    parse_with_meta KCat (show hive (VCat v)) <> Ok v.
+  (* repaired defect (was finding C08-categorical-numeric-labels): the writer now records the type of the labels of a
+     categorical partition column (key 'labels' of its metadata), and the reader converts the directory text with it.
+     A label comes back whenever a plain value of the recorded type does - in particular every integer label: *)
+  Theorem C08_categorical_labels_roundtrip : forall k v hive,
+    parse_base F T D parse_float parse_time_np parse_time_fmt k (show hive v) = Ok v ->
+    parse_with_meta (KCat (Some k)) (show hive (VCat v)) = Ok v.
+  Proof. intros k v hive H. exact H. Qed.
+
+  Theorem C08_categorical_int_labels_roundtrip : forall sg bits z hive, in_range sg bits z = true ->
+    parse_with_meta (KCat (Some (KInt sg bits))) (show hive (VCat (VInt z))) = Ok (VInt z).
+  Proof.
+    intros sg bits z hive H.
+    exact (roundtrip_int F T D show_float parse_float show_time_iso show_time_str parse_time_np parse_time_fmt sg bits z hive H).
+  Qed.
+
+  (* files of older writers carry no label type: their numeric labels still come back as text *)
+  Theorem C08_categorical_numeric_unrecorded_refuted : exists v hive,
+    parse_with_meta (KCat None) (show hive (VCat v)) <> Ok v.
   Proof. exists (VInt 1), true. cbn. discriminate. Qed.
 
   (* ---- group-by split: no row with non-null keys lost or duplicated, for every frame *)
@@ -123,11 +138,12 @@ Section C08.
              parse_time_np parse_time_fmt parse_time_pd parse_delta feqb_spec teqb_spec deqb_spec P).
   Qed.
 
-  (* ---- C08_multiset, drill: levels that hold integers, booleans, or text that no guess of _val_to_num
-     converts (lk: class of each level; Pv_drill: non-empty legal segment text; the metadata pm of the file is
-     arbitrary - it plays no role for drill since fix b6723cb of the dirN name collision).  The levels come back as dir0, dir1, ... with the guessed value of the key text
-     (the integer, the boolean, the text).  Floats/timestamps in drill levels and levels mixing classes
-     are NOT covered by this theorem.                                                   *)
+  (* ---- C08_multiset, drill: every level holds values of ONE class (lk): integers, booleans, text that no guess of
+     _val_to_num converts - all three proved - or floats / timestamps whose text the guesses convert back to the value
+     (parse_guess (str v) = v: a hypothesis about float(), pd.Timestamp() per value, trusted base).  Pv_drill: non-empty
+     legal segment text; the metadata pm of the file is arbitrary - it plays no role for drill since fix b6723cb.
+     The levels come back as dir0, dir1, ... with the guessed value of the key text.  Levels mixing classes are not
+     covered by this theorem (text mixed with other classes reads back as text since fix 2ae7489).              *)
   Theorem C08_multiset_drill :
     forall (pm : list (str * kind)) (names : list str), names <> [] ->
     forall ord : list str -> list str, (forall l x, In x (ord l) <-> In x l) ->
@@ -164,7 +180,9 @@ Print Assumptions C08_bool_text_roundtrip.
 Print Assumptions C08_str_text_roundtrip.
 Print Assumptions C08_float_time_roundtrip_conditional.
 Print Assumptions C08_guess_int.
-Print Assumptions C08_categorical_numeric_refuted.
+Print Assumptions C08_categorical_labels_roundtrip.
+Print Assumptions C08_categorical_int_labels_roundtrip.
+Print Assumptions C08_categorical_numeric_unrecorded_refuted.
 Print Assumptions C08_groupby_partition.
 Print Assumptions C08_index_lookup.
 
@@ -208,6 +226,13 @@ Proof.
     (eexists; split; [reflexivity|]; split; [exact I || reflexivity|]; split;
       [unfold legal, clean; vm_compute; intuition discriminate|vm_compute; reflexivity]).
 Qed.
+
+(* a categorical partition column with integer labels, label type recorded: the labels come back as integers *)
+Example C08_categorical_labels_nonvacuous :
+  cread [(s_ "c", KCat (Some (KInt true 64)))]
+    (cwrite true [s_ "c"] [[([Some (VCat (VInt 5))], 0%nat); ([Some (VCat (VInt (-7)))], 1%nat); ([Some (VCat (VInt 5))], 2%nat)]])
+  = Some (Hive, [([(s_ "c", VInt 5)], 0%nat); ([(s_ "c", VInt 5)], 2%nat); ([(s_ "c", VInt (-7))], 1%nat)]).
+Proof. vm_compute. reflexivity. Qed.
 
 Example C08_nonvacuous :
   parse_int (show_Z (-9223372036854775808)) = Some (-9223372036854775808)%Z /\
